@@ -9,7 +9,10 @@ MANIFEST = {
             "re-delivered), FAIL yields a Reset, a NON response is delivered once per datagram, a response takes the request off the "
             "retransmission queue; over WHOLE runs under D1 (any datagrams arriving at any time) the ACK/RST datagrams sent are in order "
             "exactly the CON responses received (plus FAILed NONs) and the handler calls are exactly those the single-slot filter lets "
-            "through (run_con_responses_acked, run_con_response_acked_at, run_duplicates_not_redelivered); by a phase invariant over ALL "
+            "through (run_con_responses_acked, run_con_response_acked_at, run_duplicates_not_redelivered), so the handler is never "
+            "handed the same ACK-typed or the same Confirmable message twice in a row - also an ACK-typed response that matched nothing "
+            "on the send queue (response_never_delivered_twice_in_a_row, run_ack_response_at); tokens are arbitrary byte strings in "
+            "all theorems (the zero-length token included); by a phase invariant over ALL "
             "sequences of timer steps and arrivals of copies of the empty ACK and of the server's response message, a CON request sent "
             "from a quiet session concludes at most once and, once the client is quiet, exactly once unless no copy of the response ever "
             "arrived (exactly_once_partial); liveness: under the fairness hypothesis (a response copy is delivered, or no empty ACK is, "
@@ -22,8 +25,11 @@ MANIFEST = {
             "side conditions, and 'never neither' whenever the client is quiet since such a server sends no empty ACK "
             "(exactly_once_piggybacked, exactly_once_piggybacked_default, exactly_once_piggybacked_quiet). M (client, server personalities, network, "
             "event loop) is tied to the compiled code by exact equality of whole traces (every datagram, handler call, NACK, with "
-            "virtual timestamps) of a real client and a real server context on generated loss/duplication/delay schedules; the "
-            "property's clauses are also checked directly on the implementation's trace.",
+            "virtual timestamps) of a real client and a real server context on generated loss/duplication/delay schedules "
+            "(request tokens of 0, 1, 2..8 bytes; server personalities incl. 'da', a peer that sends its response as an ACK-typed "
+            "message with a message id of its own after the Empty ACK); the property's clauses are also checked directly on the "
+            "implementation's trace. OBSERVATION ONLY (no theorem, no model): op xchg2 runs TWO client sessions with equal message ids "
+            "in one context (shared context->sendqueue) and judges the implementation's trace by the oracle alone.",
     "note": "PARTIAL: open finding unsolicited_response_delivered - the client keeps no record of outstanding tokens, so a response "
             "arriving after the NACK, or a second response message from a server that processed a retransmitted request again, is "
             "delivered again; the theorems' hypotheses exclude exactly that: the server piggybacks or de-duplicates (then 'one response "
@@ -32,7 +38,9 @@ MANIFEST = {
             "piggybacked responses it is proved). Liveness (never_neither) is full strength; its explicit fairness hypothesis excludes exactly D5 (separate "
             "response lost on every transmission after the empty ACK arrived: the request stays open, d5_neither_witness). The closed loop of the "
             "theorems (Sys: logs of transmitted datagrams, any copy deliverable) is an abstraction of the harness event loop Sim.run, "
-            "not proved equal to it. Trusted: Lean kernel (+ propext, Classical.choice, Quot.sound), harness/exchange.c + sim_core.h, "
+            "not proved equal to it. For the out-of-RFC personality 'da' only 'never twice' and the hypothesis-free clauses are claimed "
+            "(an ACK whose mid matches nothing does not take the request off the retransmission queue: observation O5). Several "
+            "sessions sharing one context's send queue are not modelled (C06 models that queue); xchg2 is judged by the oracle only. Trusted: Lean kernel (+ propext, Classical.choice, Quot.sound), harness/exchange.c + sim_core.h, "
             "generators and oracle, the hand transcription M (checked against the compiled code on the schedules run only).",
     "design_ref": "DESIGN.md §4 C07, design/C07.md",
 }
@@ -50,10 +58,12 @@ REQUIRED_THEOREMS = ["exactly_once_partial", "response_stops_retransmission", "c
                      # never twice for ANY ACK-typed / CON response (matched on the send queue or not)
                      "response_never_delivered_twice_in_a_row", "run_ack_response_at"]
 RULE = ("schedules for harness/exchange.c (real client + real server context, virtual clock, scripted network): server personality "
-        "(piggyback, coap_async delayed / triggered, application-delayed separate CON / NON, each with and without application-level "
-        "request de-duplication) x fate of every datagram in order of transmission (deliver after d ms / drop / duplicate) x scripted "
+        "(piggyback, coap_async delayed / triggered, application-delayed separate CON / NON / ACK-typed-with-own-mid, each with and "
+        "without application-level request de-duplication) x request token (default 2 bytes, zero-length, 1 byte, 2..8 bytes) x fate of every datagram in order of transmission (deliver after d ms / drop / duplicate) x scripted "
         "handler verdicts x 1..5 requests (CON/NON, GET/POST/PUT/DELETE) sent one at a time; exhaustive: every drop pattern over the "
-        "first 8 datagrams and every drop/duplicate pattern over the first 6 for each personality; random loss/dup/delay beyond; "
+        "first 8 datagrams (with 3 token shapes) and every drop/duplicate pattern over the first 6 for each personality; random "
+        "loss/dup/delay beyond; op xchg2: the same requests on two client sessions of one context with equal message ids, every drop "
+        "pattern over the first 8 datagrams per personality + random schedules; "
         "non-trivial = distinct schedule in which the response handler or the NACK handler ran")
 TRUSTED_BASE = ["Lean 4.33 kernel; axioms allowed: propext, Classical.choice, Quot.sound (audited per theorem each run)",
                 "harness/exchange.c + harness/sim_core.h (virtual clock, scripted network, simulation loop), generators, the trace oracle in props/C07.py",
@@ -79,8 +89,8 @@ def harness(ctx):
 
 
 # --------------------------------------------------------------------------------------------- generator
-def line(pers, D, cm, sm, rc, rs, mode, reqs, verd, fates):
-    return "xchg %s %d %d %d %d %d %s %s %s %s" % (pers, D, cm, sm, rc, rs, mode, ",".join(reqs), verd or "-", ",".join(fates) or "-")
+def line(pers, D, cm, sm, rc, rs, mode, reqs, verd, fates, op="xchg"):
+    return "%s %s %d %d %d %d %d %s %s %s %s" % (op, pers, D, cm, sm, rc, rs, mode, ",".join(reqs), verd or "-", ",".join(fates) or "-")
 
 
 def generate(ctx, escalate=False):
@@ -99,6 +109,22 @@ def generate(ctx, escalate=False):
         for pat in itertools.product(["d0", "x", "u0+700"], repeat=k):
             if "u0+700" in pat:
                 out.append(line(pers, D, 1000, 5000, 128, 7, "q", ["C2"], "", list(pat)))
+    # two client sessions with EQUAL message ids in one context (shared context->sendqueue): every drop pattern over the first
+    # 8 datagrams for each personality, random schedules beyond (implementation judged by the oracle only, see design/C07.md)
+    for pers in PERS:
+        for pat in itertools.product(["d0", "x"], repeat=8):
+            out.append(line(pers, 300, 1000, 5000, 0, 0, "q", ["C1"], "", list(pat), op="xchg2"))
+    for _ in range(30000 if thorough else 3000):
+        cm = rng.choice([rng.randrange(65536), 65533, 1000])
+        fates = []
+        loss = rng.choice([0.1, 0.3, 0.6])
+        for _ in range(rng.choice([0, 4, 10, 20, 40])):
+            c = rng.random()
+            fates.append("x" if c < loss else ("u%d+%d" % (rdelay(rng), rdelay(rng)) if c < loss + 0.15 else "d%d" % rdelay(rng)))
+        out.append(line(rng.choice(PERS), rng.choice([1, 50, 500, 1999, 2500, 5000]), cm, cm if rng.random() < 0.3 else rng.randrange(65536),
+                        rng.choice([0, 255, rng.randrange(256)]), rng.choice([0, 255, rng.randrange(256)]), "q",
+                        [rng.choice("CCCN") + rng.choice("1234") for _ in range(rng.choice([1, 1, 2, 3]))],
+                        "".join(rng.choice("ooof") for _ in range(rng.choice([0, 0, 4]))), fates, op="xchg2"))
     n = 200000 if thorough else 20000
     if escalate:
         n *= 3
@@ -180,6 +206,8 @@ def parse_input(l):
             a, b = f[1:].split("+")
             delays += [int(a), int(b)]
     reqs = w[8].split(",")
+    if w[0] == "xchg2":       # every entry is sent on session A and on session B: requests 2i and 2i+1
+        reqs = [r[:2] for r in reqs for _ in (0, 1)]
     toks = [(r[3:] if len(r) > 2 else "%02x07" % (0xc0 + i)) for i, r in enumerate(reqs)]
     return {"pers": w[1], "D": int(w[2]), "mode": w[7], "reqs": reqs, "toks": toks, "maxdelay": max(delays or [0])}
 
@@ -247,6 +275,10 @@ def oracle(inp, trace):
                         first_verdict[key] = calls[0]
                         if (calls[0] == "f") != (len(rsts) == 1):
                             return ("clause", "fail_verdict_resets: CON response mid=%s verdict %s but %s sent" % (mid, calls[0], "RST" if rsts else "ACK"))
+                    elif info["mode"] == "q" and first_verdict.get(key) == "o" and rsts:
+                        # D1 (no other exchange in between): the duplicate of a response the handler ACCEPTED is acknowledged again
+                        return ("clause", "con_response_always_acked: the duplicate of the accepted CON response mid=%s was answered "
+                                          "with a Reset at %d instead of being acknowledged again" % (mid, t))
                 if K == "N":
                     if len(calls) != 1:
                         return ("clause", "non_delivered_once_per_datagram: NON response mid=%s at %d delivered %d times" % (mid, t, len(calls)))
@@ -316,6 +348,8 @@ def judge(ctx, c):
     v = oracle(c["input"], i)
     if v:
         return ("spec", "%s: %s" % (v[0], v[1]))
+    if c["input"].startswith("xchg2 "):
+        return None if m == "-" else ("tie", "driver: %s" % m)      # two sessions in one context: oracle only (no model)
     if i != m:
         return ("tie", "trace of the implementation differs from the model's: %s" % first_diff(i, m))
     return None
@@ -343,7 +377,7 @@ def nontrivial(c):
 def classify(c):
     w = c["input"].split()
     i = c["impl"] or ""
-    return "%s:%s:%s" % (w[1], w[7], "nack" if " nack@" in i else ("rsp" if " rsp@" in i else "none"))
+    return "%s%s:%s:%s" % ("2x" if w[0] == "xchg2" else "", w[1], w[7], "nack" if " nack@" in i else ("rsp" if " rsp@" in i else "none"))
 
 
 def search(ctx, tie_breaks, proof):
